@@ -304,6 +304,12 @@ func (c *Ctx) dispatchReach() map[*ssa.Function]bool {
 			}
 		}
 	}
+	// a function that looks a request handler up in a table built elsewhere (a constructor) dispatches as well
+	for _, rl := range c.routeLookups() {
+		if rl.fn != nil && rl.call != nil {
+			targets[rl.fn] = true
+		}
+	}
 	// backward reachability over the call graph
 	seen := map[*ssa.Function]bool{}
 	var stack []*ssa.Function
